@@ -327,6 +327,126 @@ pub fn check_ipq_regimes() -> Outcome {
             }
         }
     }
+    // Sliding window: n entries inserted in non-decreasing key order, then every pull is followed
+    // by the insertion of an entry larger than everything queued (the queue keeps its size and its
+    // bottom row is rewritten again and again), then a drain.
+    if mismatch.is_none() {
+        'window: for &n in &[5usize, 36, 514, 601, 1025, 1030, 2051] {
+            let mut s = IpqSubject::fresh(&());
+            let mut hist: Vec<String> = vec![format!("sliding window n={}", n)];
+            let mut ops: Vec<IpqOp> = (0..n).map(|i| IpqOp::Insert((i * 200 / n) as u8)).collect();
+            for _ in 0..n + 3 {
+                ops.push(IpqOp::Peek);
+                ops.push(IpqOp::Pull);
+                ops.push(IpqOp::Insert(255));
+            }
+            for _ in 0..n + 1 {
+                ops.push(IpqOp::Pull);
+            }
+            let mut failed = None;
+            for op in &ops {
+                transitions += 1;
+                if let Err(e) = s.apply(op) {
+                    hist.push(format!("{:?} (operation #{})", op, transitions));
+                    failed = Some(e);
+                    break;
+                }
+            }
+            traces += 1;
+            if let Some(e) = failed {
+                mismatch = Some(crate::Mismatch { history: hist, msg: e });
+                break 'window;
+            }
+        }
+    }
+    // Shaped heaps: keys chosen by array position so that insertion in position order needs no
+    // sifting (every key >= its parent's) and the path of smallest children leads from the root
+    // to a chosen node: the parent of the last leaf, the last leaf itself, the leftmost and the
+    // rightmost leaf. Then pull / insert / pull everything, for sizes around and beyond 512.
+    if mismatch.is_none() {
+        'shaped: for &n in &[9usize, 10, 33, 34, 513, 514, 515, 600, 601, 1023, 1024, 1025, 1030, 1031, 2050, 2051] {
+            let last = n - 1;
+            let targets = [if n >= 3 { (last - 1) / 2 } else { 0 }, last, n / 2, (n - 2).max(0), {
+                let mut i = 0usize;
+                while 2 * i + 1 < n {
+                    i = 2 * i + 1;
+                }
+                i
+            }];
+            for (ti, &target) in targets.iter().enumerate() {
+                let mut on_path = vec![false; n];
+                let mut i = target;
+                loop {
+                    on_path[i] = true;
+                    if i == 0 {
+                        break;
+                    }
+                    i = (i - 1) / 2;
+                }
+                // The children of the target count as "on the path" as well (smaller than a sibling's subtree).
+                if 2 * target + 1 < n {
+                    on_path[2 * target + 1] = true;
+                }
+                let depth = |mut i: usize| {
+                    let mut d = 0u8;
+                    while i > 0 {
+                        i = (i - 1) / 2;
+                        d += 1;
+                    }
+                    d
+                };
+                for follow in 0..6usize {
+                    let mut s = IpqSubject::fresh(&());
+                    let mut hist: Vec<String> = vec![format!("shaped n={} target#{}={} follow={}", n, ti, target, follow)];
+                    let mut ops: Vec<IpqOp> = (0..n).map(|i| IpqOp::Insert(depth(i) * 2 + if on_path[i] { 0 } else { 1 })).collect();
+                    ops.push(IpqOp::Pull);
+                    ops.push(IpqOp::Peek);
+                    match follow {
+                        0 => ops.push(IpqOp::Insert(0)),
+                        1 => {
+                            ops.push(IpqOp::Pull);
+                            ops.push(IpqOp::Insert(3));
+                        }
+                        2 => {
+                            ops.push(IpqOp::Extract(n / 3));
+                            ops.push(IpqOp::Insert(40));
+                        }
+                        // Large keys stay at the bottom (next to the node the pull has just filled).
+                        3 => ops.push(IpqOp::Insert(255)),
+                        4 => {
+                            ops.push(IpqOp::Insert(254));
+                            ops.push(IpqOp::Insert(255));
+                        }
+                        _ => {
+                            ops.push(IpqOp::Insert(255));
+                            ops.push(IpqOp::Pull);
+                            ops.push(IpqOp::Insert(255));
+                        }
+                    }
+                    for k in 0..n + 2 {
+                        ops.push(IpqOp::Pull);
+                        if k % 64 == 0 {
+                            ops.push(IpqOp::Peek);
+                        }
+                    }
+                    let mut failed = None;
+                    for op in &ops {
+                        transitions += 1;
+                        if let Err(e) = s.apply(op) {
+                            hist.push(format!("{:?}", op));
+                            failed = Some(e);
+                            break;
+                        }
+                    }
+                    traces += 1;
+                    if let Some(e) = failed {
+                        mismatch = Some(crate::Mismatch { history: hist, msg: e });
+                        break 'shaped;
+                    }
+                }
+            }
+        }
+    }
     Outcome {
         name: "indexed_priority_queue_regimes",
         states: sizes.len() as u64,
